@@ -134,6 +134,61 @@ def _site_coverage(ck, repo, w):
             comp = [n for n in walk_no_nested(f.node) if isinstance(n, ast.ListComp)]
             ok = len(comp) == 1 and unparse(comp[0].generators[0].iter) == f.positional_params[0] and not comp[0].generators[0].ifs
             ck.ob(f"{f.name}: every element of the incoming list is parsed", ok, f, comp[0] if comp else f.node, construct=f"all-elements:{f.name}")
+    # list-level parsers: nothing of a non-empty incoming list is dropped (a dropped node is a node no rule ever sees)
+    n_list = 0
+    for f in sorted(w.trans.funcs.values(), key=lambda f: f.name):
+        if not f.positional_params:
+            continue
+        p0 = f.positional_params[0]
+        fv = FuncView(f)
+        its = [(n, n.generators[0]) for n in walk_no_nested(f.node) if isinstance(n, ast.ListComp) and unparse(n.generators[0].iter) == p0]
+        its += [(n, n) for n in fv.loops() if isinstance(n, ast.For) and unparse(n.iter) == p0]
+        if not its:
+            continue
+        n_list += 1
+        node, gen = its[0]
+        ok = len(its) == 1 and not getattr(gen, "ifs", []) and set(fv.conditions(node)) <= {(p0, "T")} and \
+            not (isinstance(node, ast.For) and any(isinstance(x, (ast.Break, ast.Continue, ast.Return)) for x in walk_no_nested(node)))
+        ck.ob(f"{f.name}: every element of a non-empty `{p0}` is parsed (no filter, no early exit, not skipped)", ok, f, node, construct=f"all-elements:{f.name}:guard",
+              detail=str(sorted(fv.conditions(node))))
+        empties = [r for r in fv.returns() if unparse(r.value) == "[]"]
+        ck.ob(f"{f.name}: the empty list is answered only for an empty `{p0}`", all(set(fv.conditions(r)) == {(p0, "F")} for r in empties), f, empties[0] if empties else f.node,
+              construct=f"all-elements:{f.name}:empty")
+    ck.count("list_level_parsers", n_list, 7)
+    # bookkeeping read by the document-level rules (used / defined fragments, variables per operation or fragment)
+    fs = w.trans.func("_parse_fragment_spread")
+    fsv = FuncView(fs)
+    built = [c for c in fsv.calls("FragmentSpreadNode")]
+    bname = unparse(fsv.stmt_of(built[0]).targets[0]) if len(built) == 1 and isinstance(fsv.stmt_of(built[0]), ast.Assign) else "?"
+    apps = {unparse(c.func.value)[:60]: c for c in fsv.calls("append")}
+    glob_ = [c for t, c in apps.items() if t.startswith("validators.ctx.setdefault('fragment_spreads', [])")]
+    ok = len(glob_) == 1 and unparse(glob_[0].args[0]) == bname and not fsv.conditions(glob_[0])
+    ck.ob("_parse_fragment_spread records every spread in the document-wide list (read by fragment-must-be-used / spread-target-defined)", ok, fs, glob_[0] if glob_ else fs.node,
+          construct="bookkeeping:spreads:document")
+    per = [c for c in fsv.calls("append") if ".setdefault('spreads', [])" in unparse(c.func.value)]
+    conds = {("operation" if "per_operation" in unparse(c.func.value) else "fragment"): (set(fsv.conditions(c)), unparse(c.func.value), unparse(c.args[0])) for c in per}
+    ok = set(conds) == {"operation", "fragment"} and conds["operation"][0] == {("validators.ctx['in_operation']", "T")} and conds["fragment"][0] == {("validators.ctx['in_operation']", "F")} and \
+        "validators.ctx['per_operation'][validators.ctx['current_operation_name']]" in conds["operation"][1] and \
+        "validators.ctx['per_fragment'][validators.ctx['current_fragment_name']]" in conds["fragment"][1] and conds["operation"][2] == bname and conds["fragment"][2] == bname
+    ck.ob("_parse_fragment_spread files the spread under the operation or the fragment being parsed, whichever it is in", ok, fs, per[0] if per else fs.node,
+          construct="bookkeeping:spreads:owner", detail=str({k: sorted(v[0]) for k, v in conds.items()}))
+    od = w.trans.func("_parse_operation_definition")
+    st = {}
+    for n in walk_no_nested(od.node):
+        if isinstance(n, ast.Assign):
+            st[unparse(n.targets[0])] = n.value
+    from ..q import ifexp_parts
+    ok = ifexp_parts(st.get("name")) == ("operation_definition_ast['name']", "_parse_name(operation_definition_ast['name'])", "None") and \
+        ifexp_parts(st.get("validators.ctx['current_operation_name']")) == ("name", "name.value", "'None'") and unparse(st.get("validators.ctx['in_operation']")) == "True"
+    sd = [c for c in FuncView(od).calls("setdefault") if unparse(c.func.value) == "validators.ctx.setdefault('per_operation', {})"]
+    ok = ok and len(sd) == 1 and ifexp_parts(sd[0].args[0]) == ("name", "name.value", "'None'")
+    ck.ob("_parse_operation_definition: the operation's bookkeeping key is its name ('None' for the anonymous one) and in_operation is set", ok, od, od.node,
+          construct="bookkeeping:operation-key")
+    fd = w.trans.func("_parse_fragment_definition")
+    st = {unparse(n.targets[0]): n.value for n in walk_no_nested(fd.node) if isinstance(n, ast.Assign)}
+    ok = unparse(st.get("validators.ctx['in_operation']")) == "False" and unparse(st.get("validators.ctx['current_fragment_name']")) == "name.value" and \
+        unparse(st.get("name")) == "_parse_name(fragment_definition_ast['name'])"
+    ck.ob("_parse_fragment_definition: the fragment's bookkeeping key is its name and in_operation is cleared", ok, fd, fd.node, construct="bookkeeping:fragment-key")
     pa = w.trans.func("_parse_argument")
     pv = FuncView(pa)
     ctor = pv.maybe_call("ArgumentNode")
@@ -387,6 +442,18 @@ def _nothing_runs(ck, repo):
             d, e = [unparse(x) for x in st.targets[0].elts]
             ok = [unparse(a) for a in c.args][:3] == ["self._schema", d, e]
         ck.ob(f"{name}: passes the (document, errors) pair of the cached parse to the executor", bool(ok and c is not None), f, c or f.node, construct=f"pass-through:{name}")
+    pv = repo.func("tartiflette/execution/collect.py", "parse_and_validate_query")
+    pvv = FuncView(pv)
+    rets = pvv.returns()
+    pairs = all(isinstance(r.value, ast.Tuple) and len(r.value.elts) == 2 for r in rets)
+    main = [r for r in rets if not pvv.try_handlers_around(r) and not any(contains(h, r) for h in pvv.handlers())]
+    bad = [r for r in main if unparse(r.value.elts[0]) == "None"] if pairs else []
+    good = [r for r in main if unparse(r.value.elts[1]) == "None"] if pairs else []
+    ok = pairs and len(main) == 2 and len(bad) == 1 and len(good) == 1 and unparse(bad[0].value.elts[1]) == "document.validators.errors" and \
+        set(pvv.conditions(bad[0])) == {("document.validators.errors", "T")} and set(pvv.conditions(good[0])) == {("document.validators.errors", "F")} and \
+        unparse(good[0].value.elts[0]) == "document"
+    ck.ob("parse_and_validate_query answers (None, the validation errors) exactly when the rules reported some, else (document, None); every exit is a pair", ok, pv,
+          bad[0] if bad else pv.node, construct="gate:parse:pair", detail=str([unparse(r.value)[:50] for r in rets]))
     # bake_execute wires _perform_query/_perform_subscription as the innermost callable
     e = repo.func("tartiflette/engine.py", "Engine.cook")
     c = FuncView(e).maybe_call("bake_execute")
@@ -423,6 +490,27 @@ def single_root_traversal(ck, repo):
     src = [n for n in walk_no_nested(f.node) if isinstance(n, ast.Assign) and unparse(n.targets[0]) == "nb_selections"]
     ok = ok and len(src) == 1 and unparse(src[0].value) == f"len({p[2]}.selections)"
     ck.ob("single-root-field: more than one selection at any level reached this way is an error", ok, f, err[0] if err else f.node, construct="single-root:count")
+    # the whole decision: count x kind of the single selection x fragment found
+    import itertools
+    from ..pathtab import Atoms, evaluate
+    from .c04 import _ret_class
+    atoms = Atoms({"nb_selections > 1": "many", "nb_selections == 1": "one", "isinstance(selected, FragmentSpreadNode)": "spread", "isinstance(selected, InlineFragmentNode)": "inline",
+                   "frag": "found"})
+    for many, one, spread, inline, found in itertools.product([False, True], repeat=5):
+        if (many and one) or (spread and inline) or (found and not spread):
+            continue
+        if not one and (spread or inline or found):
+            continue
+        val = {"many": many, "one": one, "spread": spread, "inline": inline, "found": found}
+        want = "error" if many else ("fragment" if one and spread and found else ("inline" if one and inline else "none"))
+        got = set()
+        for tr in fv.cfg.simulate(lambda n, env: evaluate(n.ast, env, val, atoms)):
+            rv = _ret_class(tr)
+            t = rv if isinstance(rv, str) else unparse(rv)
+            got.add("error" if "graphql_error_from_nodes" in t else ("none" if t == "[]" else ("inline" if t.startswith(f"self.{f.name}(") and "selected.selection_set" in t else
+                                                                                             ("fragment" if t.startswith(f"self.{f.name}(") else t))))
+        ck.ob(f"single-root-field table {val}", got == {want}, f, f.node, construct="single-root:table:" + "".join(str(int(v)) for v in val.values()),
+              detail=f"got {sorted(got)}, want {want}" + atoms.note())
     ff = repo.func(RULES_PKG + "single_root_field.py", "_find_fragment")
     r = [x for x in FuncView(ff).returns() if unparse(x.value) != "None"]
     ok = len(r) == 1 and (f"{unparse(r[0].value)}.name.value == {ff.positional_params[1]}", "T") in FuncView(ff).conditions(r[0])
